@@ -40,8 +40,12 @@ def run_property(prop: str, tier: str, seed: int, prog: Program | None = None, q
             prog = Program()
         ctx = Ctx(prop, prog, tier)
         mod.run(ctx)
-        if tier == "thorough" and hasattr(mod, "thorough"):
-            mod.thorough(ctx)
+        if tier == "thorough":
+            from . import selftest
+
+            if hasattr(mod, "thorough"):
+                mod.thorough(ctx)
+            ctx.extra_evidence = {"selftest": selftest.run(ctx, mod, out)}
     except AnalysisError as e:
         err = f"ANALYSIS-ERROR property={prop} {e}"
     except Exception as e:  # internal bug in the checker: never a violation
